@@ -22,7 +22,7 @@ CASE_TIMEOUT = 400
 NPROC = 16
 RULE = ('each case = one radial_solver call in its own sanitized interpreter: (a) every layer stack of 1-2 layers (quick; 1-3 thorough) over {solid,liquid}x{static,dynamic}x'
         '{compressible,incompressible} INCLUDING liquid surface layers, both nondimensionalize values; (b) one case per argument fault (bad/duplicate/too many solve_for, wrong '
-        'types and lengths, unknown layer type / integrator, <=3 slices, unsorted or too small upper radii, empty / length-1 / mismatched / non-contiguous arrays, NaN/0/negative/inf '
+        'types and lengths, unknown layer type / integrator, <=3 slices, unsorted or too small upper radii, empty / length-1 / non-contiguous arrays, each of the five arrays shorter or longer than the others, NaN/0/negative/inf '
         'in each material array and scalar, degree 0/1/255, rtol/atol 0/negative/NaN, step / RAM budgets 0/1/5, expected_size 0/1, max_step tiny/huge); (c) random pairwise combinations; '
         '(d) lifetime probes; non-trivial = the child produced an outcome record or died (both are observations); distinct by case hash')
 ASSUMPTIONS = ['CPython, numpy, scipy(LAPACK) and CyRK are not instrumented: errors inside them are only seen when they touch instrumented memory or crash',
@@ -53,7 +53,7 @@ FAULTS = [
     {'layer_types': ['plasma']}, {'layer_types_len': 2}, {'static_len': 2}, {'incomp_len': 0}, {'upper_len': 2}, {'layer_types_raw': 'list'},
     {'kw': {'integration_method': 'euler'}}, {'kw': {'integration_method': ''}}, {'nper': 3}, {'nper': 2}, {'nper': 4},
     {'upper': 'too_small'}, {'upper': 'unsorted'}, {'upper': 'negative'}, {'upper': 'nan'}, {'upper': 'beyond'},
-    {'arrays': 'empty'}, {'arrays': 'len1'}, {'arrays': 'mismatch_short'}, {'arrays': 'mismatch_long'}, {'arrays': 'noncontig'}, {'arrays': 'float32'}, {'arrays': 'readonly'},
+    {'arrays': 'empty'}, {'arrays': 'len1'}, {'arrays': 'mismatch_short'}, {'arrays': 'mismatch_long'}, {'short': 'rho'}, {'short': 'g'}, {'short': 'K'}, {'short': 'mu'}, {'short': 'r'}, {'long': 'rho'}, {'long': 'g'}, {'long': 'K'}, {'long': 'r'}, {'arrays': 'noncontig'}, {'arrays': 'float32'}, {'arrays': 'readonly'},
     {'radius0': 0.0, 'kw': {'max_num_steps': 100}}, {'radius': 'decreasing'}, {'radius': 'duplicate'}, {'radius': 'negative'},
 ] + [{'array_value': [a, i, v]} for a in ('rho', 'g', 'K', 'mu', 'r') for i, v in (('all', 'nan'), (5, 'nan'), ('all', 0.0), (5, 0.0), (5, -1.0), (5, 'inf'))] + [
     {'scalar': ['frequency', v]} for v in ('nan', 0.0, -1e-5, 'inf', 1e-300, 1e300)] + [{'scalar': ['bulk', v]} for v in ('nan', 0.0, -3000.0, 'inf')] + [
@@ -150,6 +150,11 @@ def build_inputs(c):
         arr['rho'] = arr['rho'][:-2].copy()
     elif how == 'mismatch_long':
         arr['mu'] = np.concatenate((arr['mu'], arr['mu'][-3:]))
+    if 'short' in f:
+        # a genuinely shorter heap array (own allocation, so that reads past its end hit an ASan red zone)
+        arr[f['short']] = np.array(arr[f['short']][:-3], copy=True)
+    if 'long' in f:
+        arr[f['long']] = np.concatenate((arr[f['long']], arr[f['long']][-2:]))
     elif how == 'noncontig':
         arr['g'] = np.repeat(arr['g'], 2)[::2]
     elif how == 'float32':
